@@ -511,6 +511,13 @@ Proof.
   - intro H. vm_compute in H. discriminate H.
 Qed.
 
+(** ** Tie to the source by translation: [maybe_fix_sim_time_roundoff] of the model is the transcribed
+    expression [dt * jnp.round(state.sim_time / dt)] (tools/translate/gen_combinators.py). *)
+From Dino Require Import Gen.CombinatorsSrc Thm.CombinatorsSrc.
+Theorem C11_fix_time_is_source {F : Type} {o : Ops F} {Fc : FieldC o} (rnd : F -> Z) (dt t : F) :
+  fix_time rnd dt t = fix_time_src (fun x => fofZ (rnd x)) dt t /\ gen_combinators_ok = true.
+Proof. split; [apply fix_time_matches_source | exact gen_combinators_complete]. Qed.
+
 Print Assumptions C11_term_preserves_subspace.
 Print Assumptions C11_trajectory_in_subspace.
 Print Assumptions C11_leapfrog_trajectory_in_subspace.
@@ -547,3 +554,4 @@ Print Assumptions C11_primeq_trajectory_in_subspace.
 Print Assumptions C11_primeq_leapfrog_trajectory_in_subspace.
 Print Assumptions C11_primeq_means_conserved.
 Print Assumptions C11_pe_hyps_satisfiable.
+Print Assumptions C11_fix_time_is_source.
